@@ -297,6 +297,50 @@ pub fn run(tier: Tier) {
         }
     }
 
+    // call histories on one thread: what hash_to_point returns must not depend on what it hashed before
+    {
+        let inputs: Vec<Vec<u8>> = vec![b"short input A, 45 bytes long ................".to_vec(), b"B".to_vec(), vec![], vec![0x31u8; 1024], vec![0x32u8; 1025], vec![0x33u8; 5000], b"short input A, 45 bytes long ...............!".to_vec()];
+        let syms: Vec<(usize, usize)> = (0..inputs.len()).flat_map(|i| [(i, 512usize), (i, 1024)]).collect();
+        let want: Vec<Vec<i64>> = syms.iter().map(|&(i, n)| hash_to_point(&inputs[i], n, None)).collect();
+        let mut hists: Vec<Vec<usize>> = vec![];
+        for a in 0..syms.len() {
+            for b in 0..syms.len() {
+                hists.push(vec![a, b, a]);
+                hists.push(vec![a, b, b]);
+            }
+        }
+        let mut part = Part::new("call_histories", &format!("every history (x, y, x) and (x, y, y) of hash_to_point calls on one fresh thread over {} (input, degree) symbols - inputs of 0, 1, 45 (two that differ in the last byte), 1024, 1025 and 5000 bytes at both degrees: every call equals Algorithm 3 on its own input", syms.len()));
+        let inp = std::sync::Arc::new(inputs);
+        let res: Vec<(Vec<usize>, Result<Vec<Vec<u32>>, String>)> = hists
+            .par_iter()
+            .map(|h| {
+                let (h2, inp2, syms2) = (h.clone(), inp.clone(), syms.clone());
+                (h.clone(), crate::sched::on_fresh_thread(move || h2.iter().map(|&k| fh::hash_to_point(&inp2[syms2[k].0], syms2[k].1)).collect::<Vec<_>>()))
+            })
+            .collect();
+        for (h, r) in res {
+            part.states += 1;
+            part.transitions += h.len() as u64;
+            part.validated += h.len() as u64;
+            let describe = || h.iter().map(|&k| format!("({} bytes, n={})", inp[syms[k].0].len(), syms[k].1)).collect::<Vec<_>>().join(" ; ");
+            match r {
+                Err(e) => ctx.violation("htp-history:panic".to_string(), format!("hash_to_point panicked in the call history [{}]: {}", describe(), e), json!({"kind":"htp-history","history":h})),
+                Ok(outs) => {
+                    for (step, o) in outs.iter().enumerate() {
+                        let w = &want[h[step]];
+                        if o.len() != w.len() || o.iter().zip(w.iter()).any(|(a, b)| *a as i64 != *b) {
+                            ctx.violation(format!("htp-history:call{}", step + 1), format!("in the call history [{}] on one thread, call {} does not return Algorithm 3's point for its input", describe(), step + 1), json!({"kind":"htp-history","history":h}));
+                            break;
+                        }
+                    }
+                }
+            }
+        }
+        part.exhaustive = true;
+        part.outcome("every call equals Algorithm 3".to_string());
+        ctx.add_part(part);
+    }
+
     ctx.set(
         "threshold_hits",
         json!({"chunks": total.chunks, "rejected": total.rejected, "chunk==61444 (largest accepted)": total.at_61444,
@@ -315,6 +359,9 @@ pub fn run(tier: Tier) {
 }
 
 pub fn replay(case: &Value) -> Result<Option<String>, String> {
+    if case.get("kind").and_then(|k| k.as_str()) == Some("htp-history") {
+        return Err("re-run ./vf check C14 (the call histories are enumerated deterministically)".into());
+    }
     if case.get("kind").and_then(|k| k.as_str()) == Some("stream") {
         let n = case.get("n").and_then(|x| x.as_u64()).ok_or("n")? as usize;
         let name = case.get("name").and_then(|x| x.as_str()).ok_or("name")?;
